@@ -124,16 +124,28 @@ struct WalkStats
 };
 
 // Every element and text node below `root`: child.parent() must be the element that contains it. Iterative (explicit
-// stack), so that the harness itself never recurses on a hostile tree. root.parent() is not queried.
+// stack), so that the harness itself never recurses on a hostile tree. The root of a decoded tree has no container: its parent()
+// is the null Xml the API documents, so walking up from any node ends at the root after exactly its depth.
 static void walkParents(vf::Ctx& c, const Xml& root, const char* src, WalkStats& ws)
 {
 	std::vector<std::pair<Xml, int> > st;
 	st.push_back(std::make_pair(root, 1));
+	{
+		Xml rp = root.parent();
+		if (!rp.isnull()) c.fail(std::string("parents.") + src + ".root-parent-not-null", "parent() of the element returned by decode is not the null element");
+		c.count("root_parent_queried");
+	}
 	while (!st.empty()) {
 		Xml e = st.back().first;
 		int d = st.back().second;
 		st.pop_back();
 		ws.elems++;
+		if (ws.elems % 5 == 1) {   // walk up to the root
+			int up = 0;
+			for (Xml a = e; !a.isnull() && up <= d + 1; a = a.parent()) up++;
+			if (up != d) c.fail(std::string("parents.") + src + ".walk-up-length", vf::fmt("walking parent() up from an element at depth %d took %d steps", d, up));
+			c.count("walked_up_to_root");
+		}
 		if (d > ws.maxdepth) ws.maxdepth = d;
 		int n = e.numChildren();
 		if (e.children().length() != n) c.fail(std::string("accessors.") + src + ".children-length-vs-numChildren", vf::fmt("children().length()=%d numChildren()=%d", e.children().length(), n));
